@@ -484,6 +484,10 @@ func (g *histGen) scenario() {
 				g.emit(fmt.Sprintf("utxorp %d 1", j))
 				g.emit(fmt.Sprintf("expvalue %d 1000 1", j))
 			}
+			if r.Chance(40) {
+				// a signing attempt that fails after the utxo conversion (bad signature / bad key / wrong key)
+				g.emit(fmt.Sprintf("sign %d %s", j, []string{"1 1 k0 n n", "0 1 bad n n", "0 1 k1 n n"}[r.Intn(3)]))
+			}
 			g.emit(fmt.Sprintf("sign %d 0 1 k0 n n", j))
 			g.finish(j)
 		}
